@@ -216,7 +216,7 @@ def check(run):
         src = G.prog_src(mprog)
         cases.append(dict(req="asm " + src.encode().hex(), coq=f"run_asm {G.prog_coq(mprog)}", cat=cat + "-in-macro", prog=mprog, order=None, src=src))
     dis = common.correspond(run, cases, IMPORTS, tag="c01", timeout=900)
-    run.corr["rule"] = ("layout programs: 1-3 labels each followed by a jumpdest sentinel, 2-6 fixed/auto-sized pushes of label expressions "
+    run.corr["rule"] = ("layout programs: 1-3 labels, in two thirds of the programs each followed by a jumpdest sentinel, in one third directly in front of whatever comes next (often an auto-sized push that grows; oracle: label = offset of the next instruction), 2-6 fixed/auto-sized pushes of label expressions "
                         "(l, l+c, c-l, l-m+c), filler tuned so label values straddle 255/256 (and 65535/65536), probes push4 l at the end; "
                         "macro variant with local labels; cascades: one auto-sized push that grows twice (L + 256^k - (k+1)) and searched 2-4 push programs "
                         "that need more widening rounds than they have pushes, plain and inside a macro; distinct = distinct sources")
